@@ -247,10 +247,11 @@ class PageRenderer:
                 header_copy, document, page
             )
 
-            # Apply top border for first page/first header
+            # Apply top border for first page/first rendered header row (a header
+            # without text renders nothing, so the next one opens the table)
             if (
                 page.is_first_page
-                and i == 0
+                and not header_elements
                 and document.rtf_page.border_first
                 and header_copy.text is not None
             ):
